@@ -51,6 +51,131 @@ def read_all(fn):
     return arr, attrs
 
 
+TIMING_ATTRS = ("start_time", "end_time", "runtime", "runtime_seconds")
+
+
+def file_attrs(fn):
+    import h5py
+
+    out = {}
+    with h5py.File(fn, "r") as f:
+        ds = f["samples"]
+        for k, v in ds.attrs.items():
+            if k in TIMING_ATTRS:
+                continue
+            out[k] = np.asarray(v).tolist() if isinstance(v, (np.ndarray, np.generic)) else v
+        arr = np.array(ds[...], dtype=float)
+    return arr, out
+
+
+def _stop_class():
+    """target wrapper that raises KeyboardInterrupt at its k-th misfit call (an interrupted earlier run)"""
+    from hmclab.Distributions import _AbstractDistribution
+
+    class Stop(_AbstractDistribution):
+        def __init__(self, inner, k):
+            self.inner, self.k, self.calls = inner, k, 0
+            self.dimensions = inner.dimensions
+            self.lower_bounds, self.upper_bounds = inner.lower_bounds, inner.upper_bounds
+
+        def misfit(self, m):
+            self.calls += 1
+            if self.calls == self.k:
+                raise KeyboardInterrupt
+            return self.inner.misfit(m)
+
+        def gradient(self, m):
+            return self.inner.gradient(m)
+
+        def corrector(self, c, p):
+            return self.inner.corrector(c, p)
+
+        def generate(self, *a, **k):
+            return self.inner.generate(*a, **k)
+
+    return Stop
+
+
+def reuse_suite(rnd, N, findings):
+    """a run on a sampler object that has been used before = the run of a fresh object started from the same generator state"""
+    import copy
+
+    _, S, MM, D = _hm()
+    _Stop = _stop_class()
+    sr = Suite("C07.reuse", "a sampler object with a history of 1-3 earlier runs (other lengths, thinnings, stepsizes incl. per-dimension arrays, autotuning on/off, "
+               "one of them possibly interrupted) vs a fresh object whose generator is set to the same state: the next run's file (columns, bit-exact) and "
+               "all its non-timing attributes must coincide - the file describes the run, not the object's past; non-trivial = an earlier run used autotuning "
+               "or was interrupted")
+    with scratch() as tmp:
+        for ci in range(N):
+            cfg = {"sampler": rnd.choice(["RWMH", "HMC"]), "target": rnd.choice(["normaldiag", "himmelblau", "laplace"]), "boxed": rnd.random() < 0.3,
+                   "seed": rnd.randrange(1 << 30), "stepsize": rnd.choice([0.1, 0.5, 1.5]), "autotuning": rnd.random() < 0.4,
+                   "mass": rnd.choice(["unit", "diag", "full"]), "integrator": rnd.choice(["lf", "3s", "4s"]), "n": rnd.choice([1, 3]), "randomize": rnd.random() < 0.5}
+            cfg["d"] = 2 if cfg["target"] == "himmelblau" else rnd.choice([1, 2, 3])
+            bseed = rnd.randrange(1 << 30)
+            hist = []
+            for _ in range(rnd.choice([1, 2, 3])):
+                h = {"P": rnd.choice([3, 5, 8]), "t": 1, "autotuning": rnd.random() < 0.5, "interrupt_at": rnd.choice([None, None, 4, 9]),
+                     "stepsize": rnd.choice([0.2, 0.7, "vector"])}
+                hist.append(h)
+            P = rnd.choice([4, 6, 12])
+            t = rnd.choice([d for d in divisors(P)])
+
+            def make():
+                r = random.Random(bseed)
+                dist, _, _, _, lb, ub = make_target(r, cfg["target"], cfg["d"], cfg["boxed"])
+                q0 = inside_start(r, cfg["d"], lb, ub)
+                s = (S.RWMH if cfg["sampler"] == "RWMH" else S.HMC)(seed=cfg["seed"])
+                mass = make_mass(r, cfg["mass"], cfg["d"])[0] if cfg["sampler"] == "HMC" else None
+                return s, dist, q0, mass
+
+            def kwargs(mass, stepsize, autotuning):
+                if stepsize == "vector":
+                    stepsize = np.linspace(0.2, 0.6, cfg["d"]).reshape(-1, 1) if cfg["sampler"] == "RWMH" else 0.3
+                kw = dict(stepsize=stepsize, autotuning=autotuning)
+                if cfg["sampler"] == "HMC":
+                    kw.update(mass_matrix=mass, integrator=cfg["integrator"], amount_of_steps=cfg["n"], randomize_stepsize=cfg["randomize"])
+                return kw
+
+            a, dist, q0, mass_a = make()
+            b, _, _, mass_b = make()
+            stim = {"config": cfg, "history": hist, "proposals": P, "thinning": t}
+            try:
+                with quiet(), np.errstate(all="ignore"):
+                    for hi, h in enumerate(hist):
+                        target = dist if h["interrupt_at"] is None else _Stop(dist, h["interrupt_at"])
+                        a.sample(os.path.join(tmp, f"r{ci}_h{hi}.h5"), target, initial_model=q0.copy(), proposals=h["P"], online_thinning=h["t"],
+                                 overwrite_existing_file=True, disable_progressbar=True, **kwargs(mass_a, h["stepsize"], h["autotuning"]))
+                    b.rng.bit_generator.state = copy.deepcopy(a.rng.bit_generator.state)
+                    fa, fb = os.path.join(tmp, f"r{ci}_a.h5"), os.path.join(tmp, f"r{ci}_b.h5")
+                    a.sample(fa, dist, initial_model=q0.copy(), proposals=P, online_thinning=t, overwrite_existing_file=True, disable_progressbar=True,
+                             **kwargs(mass_a, cfg["stepsize"], cfg["autotuning"]))
+                    b.sample(fb, dist, initial_model=q0.copy(), proposals=P, online_thinning=t, overwrite_existing_file=True, disable_progressbar=True,
+                             **kwargs(mass_b, cfg["stepsize"], cfg["autotuning"]))
+                arr_a, at_a = file_attrs(fa)
+                arr_b, at_b = file_attrs(fb)
+            except Exception as e:
+                sr.case(stim, nontrivial=False)
+                sr.count("raised")
+                findings.append(Finding("C07", f"run on a re-used sampler object raised {e!r}", {"kind": "reuse-raise"}, {"oracle": "reuse", "stimulus": stim, "error": repr(e)}))
+                continue
+            sr.case(stim, nontrivial=any(h["autotuning"] or h["interrupt_at"] for h in hist), sample={"history": hist, "attributes_compared": sorted(at_a)} if len(sr.samples) < 2 else None)
+            sr.count(f"sampler={cfg['sampler']}")
+            sr.count(f"earlier runs={len(hist)}")
+            if any(h["interrupt_at"] for h in hist):
+                sr.count("an earlier run was interrupted")
+            problems = []
+            if arr_a.shape != arr_b.shape or arr_a.tobytes() != arr_b.tobytes():
+                problems.append("columns of the run on the re-used object differ from those of a fresh object started from the same generator state")
+            for k in sorted(set(at_a) | set(at_b)):
+                if repr(at_a.get(k)) != repr(at_b.get(k)):
+                    problems.append(f"attribute {k} is {at_a.get(k)!r} on the re-used object and {at_b.get(k)!r} on the fresh one")
+            if problems:
+                sr.disagree(stim, "same file", problems, problems[0])
+                findings.append(Finding("C07", problems[0], {"kind": "reuse", "problem": problems[0][:30]}, {"oracle": "reuse", "stimulus": stim, "problems": problems}))
+    return sr
+
+
 def divisors(P):
     return [t for t in range(1, P + 1) if P % t == 0]
 
@@ -59,7 +184,7 @@ def run(tier, seed):
     rnd = random.Random(69069 * seed + 7)
     thorough = tier == "thorough"
     findings = []
-    st = Suite("C07.file", "runs of RWMH/HMC (all integrators, mass matrices, bounded/unbounded targets, autotuning on/off), P <= 60, every thinning t | P, "
+    st = Suite("C07.file", "runs of RWMH/HMC (all integrators, mass matrices, bounded/unbounded targets, autotuning on/off; fresh sampler objects and objects with 1-2 earlier runs), P <= 60, every thinning t | P, "
                "HDF5 and NPY: file columns vs per-proposal state snapshots at the indices the model stores, misfit re-evaluated on the stored columns, "
                "attributes, equality of the two back ends, thinned = every t-th column of the unthinned run; bit-exact; "
                "non-trivial = t > 1 and at least one accept and one reject")
@@ -72,6 +197,7 @@ def run(tier, seed):
                    "autotuning": rnd.random() < 0.3, "mass": rnd.choice(["unit", "diag", "full"]), "integrator": rnd.choice(["lf", "3s", "4s"]),
                    "n": rnd.choice([1, 3, 6]), "randomize": rnd.random() < 0.5}
             cfg["d"] = 2 if cfg["target"] == "himmelblau" else rnd.choice([1, 2, 3, 5])
+            cfg["earlier_runs"] = rnd.choice([0, 0, 1, 2])
             if cfg["target"] == "uniform":
                 cfg["boxed"] = True
             bseed = rnd.randrange(1 << 30)
@@ -85,6 +211,11 @@ def run(tier, seed):
                     s, dist, q0, kw = build(bseed, cfg)
                     fn = os.path.join(tmp, f"c{ci}_{t}.{ext}")
                     with quiet(), np.errstate(all="ignore"):
+                        # history: the same sampler object has already been used for earlier runs (other file, other length)
+                        for hrun in range(cfg["earlier_runs"]):
+                            s.sample(os.path.join(tmp, f"c{ci}_{t}_pre{hrun}.{ext}"), dist, initial_model=q0.copy(), proposals=[7, 4][hrun % 2],
+                                     online_thinning=1, overwrite_existing_file=True, disable_progressbar=True, **kw)
+                        s._v_transitions = []
                         s.sample(fn, dist, initial_model=q0.copy(), proposals=P, online_thinning=t, overwrite_existing_file=True,
                                  disable_progressbar=True, **kw)
                     arr, attrs = read_all(fn)
@@ -97,6 +228,7 @@ def run(tier, seed):
                 st.case(stim, nontrivial=(t > 1 and 0 < n_acc < P))
                 st.count(f"sampler={cfg['sampler']}")
                 st.count(f"t={'1' if t == 1 else '>1'}")
+                st.count(f"earlier runs on the same sampler object={cfg['earlier_runs']}")
                 if t == 1:
                     unthinned = arr
                 problems = []
@@ -151,7 +283,8 @@ def run(tier, seed):
         ok = arr.shape[1] == len(idx) == wi and all(np.array_equal(arr[:, [j]], states[i], equal_nan=True) for j, i in enumerate(idx))
         if not ok:
             st.disagree(stim, {"stored_proposals": idx}, {"columns": int(arr.shape[1])}, "file differs from the model's thinned chain")
-    return [st], findings
+    sr = reuse_suite(rnd, 60 if thorough else 16, findings)
+    return [st, sr], findings
 
 
 def search(tier, seed, broken):
